@@ -118,7 +118,8 @@ impl ForInIterator {
                     }
                 }
             }
-            let proto = object.prototype().clone();
+            // `O.[[GetPrototypeOf]]()`: the prototype of a Proxy is not in its ordinary slot.
+            let proto = object.__get_prototype_of__(context)?;
             match proto {
                 Some(o) => {
                     object = o;
